@@ -65,8 +65,20 @@ func scenarioC17(rc *RunCtx) *Violation {
 			p.Extra[fmt.Sprintf("src/entries/e%d.js", i)] = fmt.Sprintf("console.log('ENTRY%d');\nexport const e = %d;\n", i, i)
 		}
 	}
+	symlinkedOutdir := g.n(8) == 0
+	if symlinkedOutdir {
+		// the output directory is reached through a symbolic link inside the sources that
+		// leads back to them: outputs can land on inputs under another name
+		o.Outdir = 5
+		o.OutExt = g.n(3)
+		rc.Probe("profile_outdir_through_symlink")
+	}
 	d := newDisk(g)
 	d.Cwd = p.Root
+	if symlinkedOutdir {
+		d.MkdirAll(p.Root + "/src")
+		d.Symlink(".", p.Root+"/src/outlink")
+	}
 	d.Gran = granChoices[g.n(len(granChoices))]
 	mode := g.n(4) // 0 plain, 1 write faults, 2 cancellation, 3 both
 	cfg := HistCfg{Steps: 2 + g.n(6), InPlace: g.n(2) == 1, EditsPerStep: 2, NoSnapshots: true}
